@@ -393,7 +393,7 @@ def children_of(x, pre_len, bound):
     return out
 
 
-def split_frontier(make_execution, bound, check, target=300, max_parent_executions=60):
+def split_frontier(make_execution, bound, check, target=64, max_parent_executions=400):
     """Expands the exploration tree in the calling process (cheapest-cost = largest sub-trees first) until at least
     `target` unexplored prefixes exist; returns (found, stats, prefixes).  Every returned prefix must then be explored
     with explore(..., prefix=p): each execution of the tree is run exactly once overall."""
@@ -402,7 +402,9 @@ def split_frontier(make_execution, bound, check, target=300, max_parent_executio
     heap = [(0, 0, [])]
     seq = 1
     leaves = []
-    while heap and len(heap) + len(leaves) < target and stats["executions"] < max_parent_executions:
+    while heap and stats["executions"] < max_parent_executions:
+        if heap[0][0] >= bound and len(heap) >= target:
+            break                       # only leaves of the preemption budget are left: they are the (balanced) jobs
         cost, _, pre = heapq.heappop(heap)
         x = make_execution(pre)
         stats["executions"] += 1
